@@ -173,9 +173,11 @@ pub fn check_builder(ctx: &mut Ctx, st: &BuilderState, must_accept: bool) -> Res
         Err(e) => return ctx.fail("convert:panic", format!("Board::try_from(&builder) panicked: {}", e), case()),
     };
     // the other conversion entry points agree
+    let mut bb_mut = bb;
+    let r3 = guarded(|| Board::try_from(&mut bb_mut).is_ok());
     let r2 = guarded(|| Board::try_from(bb).is_ok());
-    if r2 != Ok(r.is_ok()) {
-        ctx.fail("convert:entry-points-disagree", "TryFrom<BoardBuilder> and TryFrom<&BoardBuilder> disagree".into(), case())?;
+    if r2 != Ok(r.is_ok()) || r3 != Ok(r.is_ok()) {
+        ctx.fail("convert:entry-points-disagree", "TryFrom<BoardBuilder> / TryFrom<&mut BoardBuilder> and TryFrom<&BoardBuilder> disagree".into(), case())?;
     }
     match r {
         Ok(b) => {
